@@ -157,7 +157,7 @@ def get_link_attribute(element, attr_name, base_url):
                 LOGGER.warning('Malformed URL: %s', uri)
             else:
                 try:
-                    parsed_base = urlsplit(base_url)
+                    parsed_base = urlsplit(iri_to_uri(base_url))
                 except ValueError:
                     LOGGER.warning('Malformed base URL: %s', base_url)
                 else:
